@@ -31,12 +31,13 @@ class Half(object):
 
 
 class MaskOf(object):
-    """(-(c as i32)) as u32 for a choice byte c in {0,1}: 0 or 0xffffffff"""
-    __slots__ = ('c', 'stage')
+    """(-(c as iW)) as uW for a choice byte c in {0,1}: 0 or 2^W - 1   (W = 32 or 64)"""
+    __slots__ = ('c', 'stage', 'w')
 
-    def __init__(self, c, stage):
+    def __init__(self, c, stage, w=32):
         self.c = c          # Int (u8) atomic
-        self.stage = stage  # 'i32' (c as i32), 'neg' (-(c as i32)), 'mask' ((..) as u32)
+        self.stage = stage  # 'signed' (c as iW), 'neg' (-(c as iW)), 'mask' ((..) as uW)
+        self.w = w
 
 
 class MaskedXor(object):
@@ -161,13 +162,24 @@ class VecTranslator(limbir.Translator):
             if x.hi:
                 return Int(('shr', x.base.e, 32), 'u32')
             return Int(('cast', 32, x.base.e), 'u32')
-        if isinstance(x, MaskOf) and x.stage == 'mask':
-            return Int(('wsub', 32, ('c', 0), ('cast', 32, x.c.e)), 'u32')
+        if isinstance(x, (MaskOf, XorPair, MaskedXor)):
+            return self.lane_int(x, 32, line)
+        raise TransErr('unsupported lane value', line)
+
+    def lane_int(self, x, w, line):
+        """plain Int for a lane value of width w (resolving the symbolic forms)"""
+        ty = 'u%d' % w
+        if isinstance(x, Int):
+            return x if x.ty == ty else self.typed(x, ty, line)
+        if w == 32 and isinstance(x, Half):
+            return self.lane32(x, line)
+        if isinstance(x, MaskOf) and x.stage == 'mask' and x.w == w:
+            return Int(('wsub', w, ('c', 0), ('cast', w, x.c.e)), ty)
         if isinstance(x, XorPair):
-            return Int(('bxor', self.lane32(x.a, line).e, self.lane32(x.b, line).e), 'u32')
+            return Int(('bxor', self.lane_int(x.a, w, line).e, self.lane_int(x.b, w, line).e), ty)
         if isinstance(x, MaskedXor):
-            m = self.lane32(MaskOf(x.c, 'mask'), line)
-            return Int(('band', ('bxor', self.lane32(x.a, line).e, self.lane32(x.b, line).e), m.e), 'u32')
+            m = self.lane_int(MaskOf(x.c, 'mask', w), w, line)
+            return Int(('band', ('bxor', self.lane_int(x.a, w, line).e, self.lane_int(x.b, w, line).e), m.e), ty)
         raise TransErr('unsupported lane value', line)
 
     def to32(self, v, line):
@@ -175,6 +187,8 @@ class VecTranslator(limbir.Translator):
             return list(v.lanes)
         out = []
         for L in v.lanes:
+            if not isinstance(L, Int):
+                L = self.lane_int(L, 64, line)
             if L.e[0] == 'c':
                 out.append(Int(('c', L.e[1] & 0xffffffff), 'u32'))
                 out.append(Int(('c', L.e[1] >> 32), 'u32'))
@@ -244,9 +258,11 @@ class VecTranslator(limbir.Translator):
         return limbir.Translator.materialize(self, v)
 
     def typed(self, x, ty, line):
-        if isinstance(x, (MaskOf, XorPair, MaskedXor, Half)) and ty == 'u32':
-            if isinstance(x, MaskOf) and x.stage != 'mask':
-                raise TransErr('signed intermediate value used as u32', line)
+        if isinstance(x, (MaskOf, XorPair, MaskedXor, Half)) and ty in ('u32', 'u64'):
+            if isinstance(x, MaskOf) and (x.stage != 'mask' or 'u%d' % x.w != ty):
+                raise TransErr('signed intermediate value used as %s' % ty, line)
+            if isinstance(x, Half) and ty != 'u32':
+                raise TransErr('32-bit lane half used as u64', line)
             return x
         return limbir.Translator.typed(self, x, ty, line)
 
@@ -268,6 +284,13 @@ class VecTranslator(limbir.Translator):
         if n == 'Choice' and isinstance(v, ChoiceV):
             return v
         if isinstance(v, Into):
+            if isinstance(v.v, Struct) and n is not None and n in self.m.structs:
+                if v.v.name == n:
+                    return v.v
+                r = self.m.find_impl_member(n, 'from', trait='From', trait_arg=v.v.name)
+                if r is None:
+                    raise TransErr('no `impl From<%s> for %s` for .into()' % (v.v.name, n), line)
+                return self.call_item(r[0], r[1], r[2], None, [v.v], line)
             raise TransErr('`.into()` whose target type is not a vector type', line)
         return limbir.Translator.coerce(self, v, ty, env, line)
 
@@ -292,7 +315,7 @@ class VecTranslator(limbir.Translator):
     def flatten_value(self, v, out, ln):
         if isinstance(v, Vec):
             for x in v.lanes:
-                out.append(x if isinstance(x, Int) else self.lane32(x, ln))
+                out.append(x if isinstance(x, Int) else self.lane_int(x, v.rep, ln))
         elif isinstance(v, Arr):
             for x in v.el:
                 self.flatten_value(x, out, ln)
@@ -393,6 +416,12 @@ class VecTranslator(limbir.Translator):
             v = self.materialize(self.deref_val(v))
             self.bind_pat(pat, v, env)
             return
+        if st[0] == 'use':
+            # `use core::arch::x86_64::_mm256_xxx [as alias];` makes the intrinsic callable by its (alias) name
+            t = st[2] if len(st) > 2 else []
+            if 'as' in t and t.index('as') == len(t) - 2 and t[-3].startswith('_mm256_') and '{' not in t:
+                env.items[t[-1]] = ('intrinsic', t[-3])
+            return
         if st[0] == 'nested':
             raise TransErr('nested item in kernel code', st[1])
         limbir.Translator.exec_stmt(self, st, env)
@@ -484,7 +513,7 @@ class VecTranslator(limbir.Translator):
             raise TransErr('%s::new with %d arguments' % (kind, len(args)), line)
         lanes = []
         for a in args:
-            if isinstance(a, (MaskOf, Half)) and w == 32:
+            if (isinstance(a, Half) and w == 32) or (isinstance(a, MaskOf) and a.w == w):
                 lanes.append(a)
             else:
                 lanes.append(self.typed(a, 'u%d' % w, line))
@@ -498,6 +527,11 @@ class VecTranslator(limbir.Translator):
             if len(segs) == 1 and segs[0].startswith('_mm256_'):
                 args = [self.eval(a, env) for a in e[3]]
                 return self.intrinsic(segs[0], args, ln)
+            if len(segs) == 1 and env.find_var_env(segs[0]) is None:
+                it, _ = env.find_item(segs[0])
+                if it is not None and it[0] == 'intrinsic':
+                    args = [self.eval(a, env) for a in e[3]]
+                    return self.intrinsic(it[1], args, ln)
             if len(segs) >= 2 and segs[-1].startswith('_mm256_') and segs[-2] == 'x86_64':
                 args = [self.eval(a, env) for a in e[3]]
                 return self.intrinsic(segs[-1], args, ln)
@@ -519,7 +553,7 @@ class VecTranslator(limbir.Translator):
                     if len(args) != 1:
                         raise TransErr('splat expects one argument', ln)
                     a = args[0]
-                    if isinstance(a, MaskOf) and w == 32:
+                    if isinstance(a, MaskOf) and a.w == w:
                         if a.stage != 'mask':
                             raise TransErr('splat of a signed value', ln)
                         return Vec(kind, w, [a] * cnt)
@@ -540,6 +574,8 @@ class VecTranslator(limbir.Translator):
             recv = self.eval(e[2], env)
             if isinstance(recv, (Vec, Into)):
                 return Into(recv.v if isinstance(recv, Into) else recv)
+            if isinstance(recv, Struct):
+                return Into(recv)
             raise TransErr('.into() on a non-vector value', ln)
         if name in ('shl', 'shr', 'extract', 'mul32'):
             recv = self.eval(e[2], env)
@@ -559,10 +595,10 @@ class VecTranslator(limbir.Translator):
                     if k >= len(recv.lanes):
                         raise TransErr('extract index out of range', ln)
                     x = recv.lanes[k]
-                    return x if isinstance(x, Int) else self.lane32(x, ln)
+                    return x if isinstance(x, Int) else self.lane_int(x, w, ln)
                 lanes = []
                 for x in recv.lanes:
-                    x = x if isinstance(x, Int) else self.lane32(x, ln)
+                    x = x if isinstance(x, Int) else self.lane_int(x, w, ln)
                     lanes.append(self.binop('<<' if name == 'shl' else '>>', x, Int(('c', k), None), ln))
                 return Vec(recv.kind, w, lanes)
         if name == 'unwrap_u8' and not e[4]:
@@ -575,44 +611,44 @@ class VecTranslator(limbir.Translator):
     def ev_unary(self, e, env):
         if e[2] == '-':
             v = self.eval(e[3], env)
-            if isinstance(v, MaskOf) and v.stage == 'i32':
-                return MaskOf(v.c, 'neg')
+            if isinstance(v, MaskOf) and v.stage == 'signed':
+                return MaskOf(v.c, 'neg', v.w)
             raise TransErr('unary - is outside the supported subset', e[1])
         return limbir.Translator.ev_unary(self, e, env)
 
     def cast(self, x, ty, line):
-        if ty == 'i32':
+        if ty in ('i32', 'i64'):
+            w = int(ty[1:])
             if isinstance(x, Int) and x.e[0] == 'c':
-                if x.e[1] >= (1 << 31):
-                    raise TransErr('constant does not fit i32', line)
+                if x.e[1] >= (1 << (w - 1)):
+                    raise TransErr('constant does not fit %s' % ty, line)
                 return Int(('c', x.e[1]), None)
             if isinstance(x, Int) and x.ty == 'u8' and x.e[0] == 'v':
-                return MaskOf(x, 'i32')
-            raise TransErr('cast to i32 of a run-time value other than a choice byte', line)
+                return MaskOf(x, 'signed', w)
+            raise TransErr('cast to %s of a run-time value other than a choice byte' % ty, line)
         if isinstance(x, MaskOf):
-            if ty == 'u32' and x.stage == 'neg':
-                return MaskOf(x.c, 'mask')
+            if ty == 'u%d' % x.w and x.stage == 'neg':
+                return MaskOf(x.c, 'mask', x.w)
             raise TransErr('unsupported cast of a signed intermediate value', line)
         if isinstance(x, (Half, XorPair, MaskedXor)):
             x = self.lane32(x, line)
         return limbir.Translator.cast(self, x, ty, line)
 
     def lane_binop(self, op, a, b, w, line):
-        if w == 32:
-            # conditional-select idiom  a ^ (mask & (a ^ b))  ->  sel c a b
-            if op == '^':
-                for p, q in ((a, b), (b, a)):
-                    if isinstance(q, MaskedXor) and isinstance(p, Int) and isinstance(q.a, Int) \
-                            and isinstance(q.b, Int) and p.e == q.a.e:
-                        return Int(('sel', q.c.e, q.a.e, q.b.e), 'u32')
-                if isinstance(a, Int) and isinstance(b, Int) and a.e[0] == 'v' and b.e[0] == 'v':
-                    return XorPair(a, b)
-            if op == '&':
-                for p, q in ((a, b), (b, a)):
-                    if isinstance(p, MaskOf) and p.stage == 'mask' and isinstance(q, XorPair):
-                        return MaskedXor(p.c, q.a, q.b)
-            a = a if isinstance(a, Int) else self.lane32(a, line)
-            b = b if isinstance(b, Int) else self.lane32(b, line)
+        # conditional-select idiom  a ^ (mask & (a ^ b))  ->  sel c a b
+        if op == '^':
+            for p, q in ((a, b), (b, a)):
+                if isinstance(q, MaskedXor) and isinstance(p, Int) and isinstance(q.a, Int) \
+                        and isinstance(q.b, Int) and p.e == q.a.e:
+                    return Int(('sel', q.c.e, q.a.e, q.b.e), 'u%d' % w)
+            if isinstance(a, Int) and isinstance(b, Int) and a.e[0] == 'v' and b.e[0] == 'v':
+                return XorPair(a, b)
+        if op == '&':
+            for p, q in ((a, b), (b, a)):
+                if isinstance(p, MaskOf) and p.stage == 'mask' and p.w == w and isinstance(q, XorPair):
+                    return MaskedXor(p.c, q.a, q.b)
+        a = self.lane_int(a, w, line)
+        b = self.lane_int(b, w, line)
         return limbir.Translator.binop(self, op, a, b, line)
 
     def binop(self, op, a, b, line):
@@ -730,4 +766,21 @@ class VecTranslator(limbir.Translator):
             if ra.rep == 64 and rb.rep == 64:
                 return Vec('m256', 64, [self.binop(op, x, y, line) for x, y in zip(ra.lanes, rb.lanes)])
             return Vec('m256', 32, [self.lane_binop(op, x, y, 32, line) for x, y in zip(v32(0), v32(1))])
+        if name in ('_mm256_madd52lo_epu64', '_mm256_madd52hi_epu64'):
+            need(3)
+            z, x, y = v64(0), v64(1), v64(2)
+            m52 = (1 << 52) - 1
+            out = []
+            for zz, xx, yy in zip(z, x, y):
+                zz, xx, yy = (self.lane_int(t, 64, line) for t in (zz, xx, yy))
+                xe = ('c', xx.e[1] & m52) if xx.e[0] == 'c' else ('band', xx.e, ('c', m52))
+                ye = ('c', yy.e[1] & m52) if yy.e[0] == 'c' else ('band', yy.e, ('c', m52))
+                if xe[0] == 'c' and ye[0] == 'c':
+                    prod = ('c', xe[1] * ye[1])
+                    part = ('c', prod[1] & m52) if name.endswith('lo_epu64') else ('c', prod[1] >> 52)
+                else:
+                    prod = ('mul', 128, xe, ye)
+                    part = ('band', prod, ('c', m52)) if name.endswith('lo_epu64') else ('shr', prod, 52)
+                out.append(self.binop('+', zz, Int(part, 'u64'), line))
+            return Vec('m256', 64, out)
         raise TransErr('intrinsic %s is outside the supported subset' % name, line)
